@@ -1,4 +1,4 @@
-\* thorough M, structure: all trees <= 4 nodes, depth <= 2, over 4 prefix-related / escaped names
+\* thorough M, structure: all trees <= 4 nodes, depth <= 3, over 4 prefix-related / escaped names
 SPECIFICATION Spec
 CONSTANTS Names <- NamesFour
           Types <- TypesAll
@@ -6,7 +6,7 @@ CONSTANTS Names <- NamesFour
           Modes = {0}
           Mtimes <- NoMeta
           MaxNodes = 4
-          MaxDepth = 2
+          MaxDepth = 3
           MinNodes = 1
           Devs = {}
 INVARIANTS TypeOK RoundTrip ShallowWalk EscapedSafe
